@@ -7,6 +7,7 @@ import (
 	"bufio"
 	"fmt"
 	"io"
+	"os"
 	"os/exec"
 	"strings"
 	"sync/atomic"
@@ -22,6 +23,7 @@ type SolverStats struct {
 }
 
 var gStats SolverStats
+var slowLog = os.Getenv("VX_SLOW") != ""
 
 type Solver struct {
 	kind    string // z3 | z3-new | cvc5
@@ -37,6 +39,7 @@ type Solver struct {
 	declUF   []map[string]bool // per scope
 	log      io.Writer
 	lastErr  string
+	what     string
 	dead     bool
 }
 
@@ -218,6 +221,9 @@ func (s *Solver) Check() string {
 	}
 	if s.lastErr != "" {
 		res = "unknown"
+	}
+	if slowLog && time.Since(t0) > 500*time.Millisecond {
+		fmt.Fprintf(os.Stderr, "SLOW %.2fs %s %s\n", time.Since(t0).Seconds(), res, s.what)
 	}
 	atomic.AddInt64(&gStats.Queries, 1)
 	atomic.AddInt64(&gStats.TimeNanos, int64(time.Since(t0)))
